@@ -282,10 +282,9 @@ deriving Repr, DecidableEq
 
 def setAt (l : NBytes) (i : Nat) (v : Nat) : NBytes := l.set i v
 
-/-- one iteration of the `while(length--)` loop; `n` = value of `length` after the decrement -/
-def psgFrame {α} (A : Arith α) (target : Nat) (n : Nat) (counter : α) (st : PsgSt) : PsgSt :=
-  let ic := A.trunc counter
-  let val : Nat := if n ≠ 0 then u8 ic else target
+/-- the body of the `while(length--)` loop once `val` is known: add the frame to the duration
+of the previous byte (same value, fewer than 15 frames, no loop mark in between) or push a byte -/
+def pushVal (st : PsgSt) (val : Nat) : PsgSt :=
   let st :=
     if (val : Int) == st.last && nth st.env st.lastPos < 0xf0 && st.loopPos != (st.env.length : Int) then
       { st with env := setAt st.env st.lastPos (nth st.env st.lastPos + 0x10) }
@@ -293,9 +292,14 @@ def psgFrame {α} (A : Arith α) (target : Nat) (n : Nat) (counter : α) (st : P
       { st with lastPos := st.env.length, env := st.env ++ [u8 (0x1f - (val : Int))] }
   { st with last := val }
 
+/-- `val` of one iteration; `n` = value of `length` after the decrement: the last frame is
+always the slide target -/
+def frameVal {α} (A : Arith α) (target : Nat) (n : Nat) (counter : α) : Nat :=
+  if n ≠ 0 then u8 (A.trunc counter) else target
+
 def psgFrames {α} (A : Arith α) (target : Nat) (delta : α) : Nat → α → PsgSt → PsgSt
   | 0, _, st => st
-  | n + 1, c, st => psgFrames A target delta n (A.add c delta) (psgFrame A target n c st)
+  | n + 1, c, st => psgFrames A target delta n (A.add c delta) (pushVal st (frameVal A target n c))
 
 def clamp15 (x : Nat) : Nat := if x > 15 then 15 else x
 
@@ -321,13 +325,19 @@ def psgValue {α} (A : Arith α) (st : PsgSt) (initial target length : Nat) : Ps
   let delta := if length > 1 then A.divNat (A.ofInt ((target : Int) - initial)) (length - 1) else A.ofInt 0
   psgFrames A target delta length (A.add (A.ofInt initial) A.half) st
 
+/-- `|` -/
+def psgLoop (st : PsgSt) : PsgSt := { st with loopPos := st.env.length }
+
+/-- `/`: a sustain with no value in front of it gets a frame of maximum volume first -/
+def psgSustain (st : PsgSt) : PsgSt :=
+  let env := if st.last == -1 then st.env ++ [0x10] else st.env
+  { st with env := env ++ [0x01], last := -1 }
+
 def psgToken {α} (A : Arith α) (st : PsgSt) (tok : String) : Except Err PsgSt :=
   let s := tok.toList
   match s with
-  | '|' :: _ => .ok { st with loopPos := st.env.length }
-  | '/' :: _ =>
-    let env := if st.last == -1 then st.env ++ [0x10] else st.env
-    .ok { st with env := env ++ [0x01], last := -1 }
+  | '|' :: _ => .ok (psgLoop st)
+  | '/' :: _ => .ok (psgSustain st)
   | _ =>
     -- `*s == 'l' && *++s == ':' && isdigit(*++s)` advances `s` while it fails
     let (isLen, s) := match s with
